@@ -308,13 +308,22 @@ def _ordinal(lst, c):
 
 
 
+SIBLINGS = (("server", r"TowerServiceNoHttp<.*> as tower::Service<.*>>::call$"), ("ws::connect", r"^jsonrpsee_server::transport::ws::connect$"), ("http::call_with_service_builder", r"^jsonrpsee_server::transport::http::call_with_service_builder$"))
+
+
+def rsib_entry_points_agree(ctx):
+    """the high-level server and the low-level entry points feed the shared machinery from the same settings"""
+    from .common import sibling_config_agreement
+    sibling_config_agreement(ctx, "C08.SIB", SIBLINGS, 6)
+
+
 def rcfg_config_verbatim(ctx):
     """the configured `max_response_body_size` reaches the ServerConfig unchanged (setter stores its argument, build()/Clone copy it)"""
     from .common import config_field_integrity
     config_field_integrity(ctx, "C08.CFG", "max_response_body_size")
 
 
-RULES = [r1_size_provenance, r2_bounded_writer, r3_batch, r4_oversize_reply, rcfg_config_verbatim]
+RULES = [r1_size_provenance, r2_bounded_writer, r3_batch, r4_oversize_reply, rsib_entry_points_agree, rcfg_config_verbatim]
 
 LEVEL_TEXT = (
     "Structural necessary conditions decided exactly from the type-checked program: provenance of every response-size "
